@@ -7,6 +7,7 @@ import verif as V
 
 PROP = "C01"
 PROPS = "props/C01.v"
+PROPS_LINK = "props/C01link.v"     # end-to-end link Sem <-> coq/c01vm (VM on compiled code) on the fragment F0 /\ F
 MAX_SKIP_RATE = 0.35          # the check fails its own sanity rule above this (reported in the evidence)
 
 
@@ -85,6 +86,7 @@ def run(tier, seed):
     else:
         regen_builtins(c, exe_h)
     proved = c.prove(PROPS)
+    proved = c.prove(PROPS_LINK) and proved
     if exe_h is not None:
         exe_m, mlog = V.build_model("sem", "extract/ExtractSem.v", "semmodel", deps=["sem/Run.v"])
         if exe_m is None:
